@@ -40,6 +40,7 @@ func main() {
 	dump := flag.String("dump", "", "debug: dump facts of the named function")
 	dumpEff := flag.String("dumpeff", "", "debug: dump effects of the named function")
 	list := flag.Bool("list", false, "debug: list functions")
+	genTabs := flag.Bool("gentables", false, "maintenance: print the frozen state-writer and failure-reason tables (tables_gen.go) for the current tree")
 	genParams := flag.Bool("genparams", false, "maintenance: print the frozen parameter-name table (paramnames_gen.go) for the current tree")
 	flag.Parse()
 	if t := os.Getenv("VERIF_TIER"); t != "" && *tier == "" {
@@ -53,7 +54,7 @@ func main() {
 	}
 	os.Unsetenv("GOWORK")
 
-	if *list || *dump != "" || *dumpEff != "" || *genParams {
+	if *list || *dump != "" || *dumpEff != "" || *genParams || *genTabs {
 		c, err := Load(*repo, "")
 		if err != nil {
 			fmt.Println(err)
@@ -61,6 +62,10 @@ func main() {
 		}
 		if *genParams {
 			genParamNames(c)
+			return
+		}
+		if *genTabs {
+			genTables(&An{C: c, F: NewFE(c), E: NewEffects(c), R: nil})
 			return
 		}
 		if *list {
@@ -150,7 +155,9 @@ func main() {
 		for _, id := range ids {
 			r := reports[id]
 			r.cfg = cfgName
-			runProp(id, &An{C: c, F: fe, E: eff, R: r})
+			an := &An{C: c, F: fe, E: eff, R: r}
+			runProp(id, an)
+			an.closedTables(id)
 			r.Extra["configurations"] = appendStr(r.Extra["configurations"], cfgName)
 			r.Extra["functions_analysed"] = len(c.FuncSeq)
 			r.Extra["callgraph_nodes"] = len(c.CG.Nodes)
